@@ -21,13 +21,14 @@ import (
 
 // CaseID is the case of the specification, Expect the model's verdict (Asn1Lax.tla, Verdict).
 type CaseID struct {
-	Shape  string `json:"shape"`
+	Shape  string   `json:"shape"`
 	Wrap   []string `json:"wrap"` // containers of mode laxAncestor, outermost first
-	V      int    `json:"v"`
-	Defect string `json:"defect"`
-	Path   []int  `json:"path"`
-	Mode   string `json:"mode"`
-	LaxAt  []int  `json:"laxAt"`
+	V      int      `json:"v"`
+	Defect string   `json:"defect"`
+	Path   []int    `json:"path"`
+	Mode   string   `json:"mode"`
+	LaxAt  []int    `json:"laxAt"`
+	TF     TimeForm `json:"tf"`
 }
 type Expect struct {
 	Strict   string `json:"strict"`
@@ -38,8 +39,11 @@ type Expect struct {
 	RT       bool   `json:"rt"`
 	RTMode   bool   `json:"rtMode"`
 	RTStd    bool   `json:"rtStd"`
+	MEq      bool   `json:"mEq"`     // MarshalAgrees: fork (strict) and encoding/asn1 marshal the decoded value alike
+	MEqMode  bool   `json:"mEqMode"` // ... fork called as the mode says
 	InEffect bool   `json:"inEffect"`
 }
+
 func (c *CaseID) key() string { return c.Shape + "/" + strings.Join(c.Wrap, "+") }
 
 type Case struct {
@@ -141,6 +145,7 @@ type realized struct {
 	tFork    reflect.Type
 	tStd     reflect.Type
 	ctx      string // kind of the node at the defect (and of its parent), for fingerprints
+	root     *VNode // the value tree the bytes were made from
 }
 
 func realize(cs *Case, shapes map[string]*Node) (*realized, error) {
@@ -149,14 +154,20 @@ func realize(cs *Case, shapes map[string]*Node) (*realized, error) {
 	if tree == nil {
 		return nil, fmt.Errorf("shape %s not exported", key)
 	}
-	ctr := 0
-	root := build(tree, cs.C.V, &ctr)
+	return realizeInst(cs, key, tree, 0)
+}
+
+// realizeInst realizes instance inst of the case's value: same structure and lengths, other leaf contents (the
+// leaves are numbered from inst+1).
+func realizeInst(cs *Case, key string, tree *Node, inst int) (*realized, error) {
+	ctr := inst
+	root := build(tree, cs.C.V, &ctr, &cs.C.TF)
 	applyDefect(root, cs.C.Defect, cs.C.Path)
 	enc := append([]byte{}, encode(root)...)
 	if cs.C.Defect == "truncated" {
 		enc = enc[:endOffset(root, cs.C.Path)-1]
 	}
-	r := &realized{tree: tree, consumed: enc, canon: canonExp(root)}
+	r := &realized{tree: tree, consumed: enc, canon: canonExp(root), root: root}
 	r.input = append([]byte{}, enc...)
 	if cs.E.Rest {
 		r.input = append(r.input, restBytes...)
@@ -173,6 +184,25 @@ func realize(cs *Case, shapes map[string]*Node) (*realized, error) {
 		r.ctx += "@" + tree.at(cs.C.Path[:len(cs.C.Path)-1]).K
 	}
 	return r, nil
+}
+
+// tfClass names the time form of a case for fingerprints: the year as written and, where it differs, the
+// year of the same instant in UTC (":tf=2050/2049"); "" for a case without a time form.
+func tfClass(tf *TimeForm) string {
+	if tf.B == 0 {
+		return ""
+	}
+	local, utc := tf.B, tf.B
+	if tf.M < 0 {
+		local--
+	}
+	if tf.M-tf.Off < 0 {
+		utc--
+	}
+	if local == utc {
+		return fmt.Sprintf(":tf=%d", local)
+	}
+	return fmt.Sprintf(":tf=%d/%d", local, utc)
 }
 
 func hx(b []byte) string { return hex.EncodeToString(b) }
@@ -229,7 +259,7 @@ func runCase(cs *Case, shapes map[string]*Node, rep *vh.Report, t *testing.T) {
 		t.Errorf("%+v: %v", cs.C, err)
 		return
 	}
-	id := fmt.Sprintf("%s:%s", cs.C.Defect, r.ctx)
+	id := fmt.Sprintf("%s:%s%s", cs.C.Defect, r.ctx, tfClass(&cs.C.TF))
 	replay := map[string]any{"case": cs, "input_hex": hx(r.input), "go_type": r.tFork.String()}
 
 	// upstream: a disagreement with the model is an error of the model / of the DER builder, not of the fork
@@ -251,7 +281,7 @@ func runCase(cs *Case, shapes map[string]*Node, rep *vh.Report, t *testing.T) {
 		}
 	}
 
-	check := func(which string, o outcome, want string, wantRT bool) {
+	check := func(which string, o outcome, want string, wantRT, wantMEq bool) {
 		got := o.verdict()
 		if got == "panic" {
 			rep.Violate("panic:"+which+":"+id, fmt.Sprintf("%s decoder panicked on input %s into %v: %s", which, hx(r.input), r.tFork, o.panic), replay)
@@ -286,6 +316,14 @@ func runCase(cs *Case, shapes map[string]*Node, rep *vh.Report, t *testing.T) {
 					fmt.Sprintf("Marshal(Unmarshal(%s)) into %v (%s) = %s %s; encoding/asn1 gives %s", hxs(r.consumed), r.tFork, which, hxs(m), e, hxs(ms)), short(replay))
 			}
 		}
+		if wantMEq && so.ok && so.canon == o.canon {
+			// clause MarshalAgrees: equal decoded values marshal alike (or fail alike), round trip or not
+			ms, es := marshalStd(so)
+			if m, e := marshalFork(o); !bytes.Equal(m, ms) || (e == "") != (es == "") {
+				rep.Violate(fmt.Sprintf("marshal-agrees:%s:%s%s", which, id, lenClass(r.tree)),
+					fmt.Sprintf("both packages decode %s into %v (%s) as %s; the fork marshals it as %s %s, encoding/asn1 as %s %s", hxs(r.consumed), r.tFork, which, trunc(o.canon), hxs(m), e, hxs(ms), es), short(replay))
+			}
+		}
 		if wantRT {
 			if m, e := marshalFork(o); !bytes.Equal(m, r.consumed) {
 				rep.Violate(fmt.Sprintf("roundtrip:%s:%s%s", which, id, lenClass(r.tree)),
@@ -295,11 +333,11 @@ func runCase(cs *Case, shapes map[string]*Node, rep *vh.Report, t *testing.T) {
 	}
 
 	strict := runFork(r.tFork, r.input, "")
-	check("strict", strict, cs.E.Strict, cs.E.RT)
+	check("strict", strict, cs.E.Strict, cs.E.RT, cs.E.MEq)
 	switch cs.C.Mode {
 	case "laxTop", "laxAncestor":
 		lax := runFork(r.tFork, r.input, "lax")
-		check(cs.C.Mode, lax, cs.E.Mode, cs.E.RTMode)
+		check(cs.C.Mode, lax, cs.E.Mode, cs.E.RTMode, cs.E.MEqMode)
 		if strict.ok && lax.ok && (strict.canon != lax.canon || !bytes.Equal(strict.rest, lax.rest)) {
 			rep.Violate("laxsuperset:"+cs.C.Mode+":"+id, fmt.Sprintf("strict and lax both accept %s into %v with different results: %s rest %x vs %s rest %x",
 				hx(r.input), r.tFork, strict.canon, strict.rest, lax.canon, lax.rest), replay)
@@ -317,10 +355,10 @@ func runCase(cs *Case, shapes map[string]*Node, rep *vh.Report, t *testing.T) {
 				rep.Add("fieldtag_lax_ignored", 1)
 			}
 		} else {
-			check("fieldTag", o, cs.E.Mode, false)
+			check("fieldTag", o, cs.E.Mode, false, false)
 		}
 	}
-	rep.Eval(fmt.Sprintf("%s/%d/%s/%s/%v/%v", cs.C.key(), cs.C.V, cs.C.Defect, cs.C.Mode, cs.C.Path, cs.C.LaxAt))
+	rep.Eval(fmt.Sprintf("%s/%d/%s/%s/%v/%v/%v", cs.C.key(), cs.C.V, cs.C.Defect, cs.C.Mode, cs.C.Path, cs.C.LaxAt, cs.C.TF))
 }
 
 func loadInputs(t *testing.T) ([]Case, map[string]*Node) {
@@ -399,6 +437,9 @@ func bases(cases []Case, shapes map[string]*Node, t *testing.T) []base {
 	for i := range cases {
 		c := &cases[i]
 		k := fmt.Sprintf("%s/%d/%s/%v", c.C.key(), c.C.V, c.C.Defect, c.C.Path)
+		if c.C.TF.B != 0 {
+			k += fmt.Sprintf("/tf%d.%d.%d", c.C.TF.B, c.C.TF.M, c.C.TF.Off)
+		}
 		if seen[k] {
 			continue
 		}
